@@ -70,6 +70,11 @@ class Terms:
         self.problems: list[str] = []
         self.ops: list[tuple] = []          # (operation, operand term) applied to pith-derived terms
         self.stores: list[str] = []
+        # item reads with the occurrences of the tests known to hold where they are evaluated (conjuncts to their left):
+        # (operation, operands, ((occurrence id, term), …))
+        self.reads: list[tuple] = []
+        self._guards: list[tuple] = []
+        self._guard_id = 0
         self.extra_bound = dict(extra_bound or {})
 
     # ------------------------------------------------------------------
@@ -123,6 +128,7 @@ class Terms:
             terms = []
             cur = env
             stop = None       # env in which evaluation stops early
+            pushed = 0
             for v in e.values:
                 if cur is None:
                     # statically unreachable operand: still term-evaluate it for the record
@@ -132,11 +138,17 @@ class Terms:
                 t, vT, vF = self.evb(v, cur)
                 terms.append(t)
                 if is_and:
+                    self._guard_id += 1
+                    self._guards.append((self._guard_id, t))
+                    pushed += 1
+                if is_and:
                     stop = self.merge(stop, vF)
                     cur = vT
                 else:
                     stop = self.merge(stop, vT)
                     cur = vF
+            if pushed:
+                del self._guards[-pushed:]
             op = 'and' if is_and else 'or'
             flat = []
             for t in terms:
@@ -269,6 +281,8 @@ class Terms:
 
     def _op(self, op, *operands):
         self.ops.append((op, operands))
+        if op == 'subscript' or op == ('call', 'next'):
+            self.reads.append((op, operands, tuple(self._guards)))
 
 
 # ---------------------------------------------------------------------------
